@@ -47,6 +47,29 @@ def rule_ctor(E, R):
             ok = bool(clo) and any(b == "Le" for b in binops(clo["body"])) and any(a for a in exprs(clo["body"], "Assign")) and \
                 any(is_lit(x, True) for x in exprs(clo["body"], "Lit"))
             R.check(ok, rule, fn, "the merge closure extends the kept range and drops the merged one", where=merges[0][1]["sp"])
+            # the kept range may only grow: its end is replaced only if the merged range ends later (or by a max)
+            if clo:
+                params = pat_bindings({"k": "x", "params": clo["params"]})
+                for a in exprs(clo["body"], "Assign"):
+                    grows = False
+                    if any(norm(c.get("callee", "")).endswith("::max") for c in exprs(a["r"], ("Call", "MethodCall"))):
+                        grows = True
+                    for n, st in walk_arms(clo["body"]):
+                        if n is a:
+                            for ent in st:
+                                if ent[0] == "if":
+                                    iff = [i for i in exprs(clo["body"], "If") if id(i) == ent[1]]
+                                    c = strip(iff[0]["cond"]) if iff else {}
+                                    if c.get("k") == "Binary" and c["op"] in ("Gt", "Ge", "Lt", "Le"):
+                                        l, r = strip(c["l"]), strip(c["r"])
+                                        ends = l.get("m") == "end" and r.get("m") == "end"
+                                        if ends:
+                                            later, kept = (l, r) if c["op"] in ("Gt", "Ge") else (r, l)
+                                            new_end = [x for x in exprs(a["r"], "MethodCall") if x["m"] == "end"]
+                                            same = bool(new_end) and local_name(new_end[0]["recv"]) == local_name(later["recv"])
+                                            grows = grows or (ent[2] is True and same)
+                    R.check(grows, rule, fn, "a merged range only ever grows (end replaced only by a later end)",
+                            "the kept range's end is overwritten unconditionally: merging a range with one nested inside it shrinks it", a["sp"])
     # FromIterator goes through From
     fi = E.hirs(r"^<range_set::RangeSet<T> as core::iter::traits::collect::FromIterator<.*>>::from_iter$")
     if len(fi) == 1:
